@@ -13,6 +13,10 @@ For every line of a session the driver
     model's quiescent state (which calls have returned, `done`, Closed, per-candidate `closeCh`/`closedCh`, notifier
     `done` flags, handlers in progress) is compared with the implementation's digest.  Agreement ⇒ the recorded
     close/return order is a behaviour of the model (`recorded`); disagreement ⇒ `rejected:<why>` (MISMATCH).
+    The search is bounded three ways — scheduler fuel (`quiesceWith`), the beam of `beam` worlds per agent, three fixed
+    schedules per op.  A world whose scheduler runs out of fuel, or that falls off the beam, is dropped UNREFUTED; once
+    that has happened in a session "no world left" is INCONCLUSIVE (`Res.inconclusive`, model output = implementation's,
+    replay of the session stops, the monitor goes on), never `rejected`.
 -/
 namespace Driver.CloseSys
 open IceModel.CloseSys IceSpec.C08 Driver
@@ -135,6 +139,10 @@ structure Rep where
   ip : Nat := 1
   /-- first disagreement / invalid transition -/
   bad : Option String := none
+  /-- the greedy scheduler ran out of fuel with a transition still enabled: this world never came to rest, so it can be
+  neither compared with the implementation's digest nor carried on — it is DROPPED, and the fact is remembered
+  (`Sess.lossy`): a later "no world explains the observation" is then inconclusive, not a rejection -/
+  gaveUp : Bool := false
   steps : Nat := 0
   deriving Inhabited
 
@@ -256,13 +264,16 @@ def Rep.markStuck (r : Rep) : Rep :=
     | none => false
   { r with stuckLoop := sl, stuckTh := st }
 
-/-- greedy scheduler: fire the first enabled candidate until none is enabled (fuel-bounded). -/
-def Rep.quiesceWith (r : Rep) (dr : Bool) : Nat → Rep
-  | 0 => { r with bad := r.bad.orElse fun _ => some "model did not reach quiescence (fuel)" }
-  | fuel + 1 =>
-    match (r.candidates dr).find? (fun a => (step r.m a).isSome) with
-    | some a => (r.fire a).quiesceWith dr fuel
-    | none => r.markStuck
+/-- greedy scheduler: fire the first enabled candidate until none is enabled (fuel-bounded).  Running out of fuel with
+a transition still enabled is NOT a disagreement with the implementation (it used to set `bad`, i.e. to count as
+"rejected"): the world is marked `gaveUp` and handled as inconclusive by `step`. -/
+def Rep.quiesceWith (r : Rep) (dr : Bool) (fuel : Nat) : Rep :=
+  match (r.candidates dr).find? (fun a => (step r.m a).isSome) with
+  | none => r.markStuck
+  | some a =>
+    match fuel with
+    | 0 => { r with gaveUp := true }
+    | fuel + 1 => (r.fire a).quiesceWith dr fuel
 
 def Rep.quiesce (r : Rep) (fuel : Nat) : Rep := r.quiesceWith true fuel
 
@@ -457,6 +468,8 @@ def Rep.convertOne (r : Rep) (d : Dig) : Option Rep :=
         | _, _ => r
       some { r1 with writes := r1.writes ++ [(id, k.addr)], nopair := r1.nopair.filter (· != id) }
 
+/-- `n` = number of pending `write:nopair` calls: every `convertOne` removes one of them from `nopair`, so the bound is
+structural (all prefixes of conversions are produced), not a search budget. -/
 def Rep.convertUpTo (r : Rep) (d : Dig) : Nat → List Rep
   | 0 => [r]
   | n + 1 => match r.convertOne d with
@@ -472,7 +485,7 @@ def Rep.finishAll (start : Rep) (d : Dig) : List Rep :=
   let c (r : Rep) : Rep := r.syncBlocked d r.pend           -- a loop blocked in a socket write
   let dd (r : Rep) : Rep := r.quiesce 4000                  -- the handlers too
   let schedules : List (Rep → Rep) := [fun r => dd (c (b r)), fun r => c (dd (b r)), fun r => dd (b (c r))]
-  (start.convertUpTo d 4).flatMap fun st => schedules.map fun f => tail (f st)
+  (start.convertUpTo d start.nopair.length).flatMap fun st => schedules.map fun f => tail (f st)
 
 /-- what distinguishes two worlds (used to keep the beam free of duplicates). -/
 def Rep.sig (r : Rep) : String :=
@@ -489,6 +502,9 @@ structure Sess where
   /-- per agent: the model states ("worlds") consistent with everything observed so far (a small beam) -/
   worlds : List (String × List Rep) := []
   dead : Bool := false
+  /-- worlds were dropped without having been refuted (the beam of 24 overflowed, or a world's scheduler ran out of
+  fuel): from here on "no world left" does not mean "no execution of the model" — inconclusive, not rejected -/
+  lossy : Option String := none
   monDead : Bool := false
   /-- the session replays the documented exclusion (GracefulClose from a handler) and must deadlock -/
   witness : Bool := false
@@ -496,6 +512,9 @@ structure Sess where
 
 abbrev State := Sess
 def init : State := {}
+
+/-- width of the beam of worlds carried per agent -/
+def beam : Nat := 24
 
 def Sess.ws (s : Sess) (ag : String) : List Rep :=
   ((s.worlds.find? (·.1 == ag)).map (·.2)).getD [{ ip := if ag == "B" then 11 else 1 }]
@@ -594,31 +613,48 @@ def step (s : State) (toks : List String) (impl : String) : State × Res :=
         else none
       -- 2. replay on the model, per agent, in every world still consistent with the observations
       let s1 : Sess := { s with mon := mon }
-      let agentStep (ag : String) (d : Dig) (s : Sess) : Sess × Option String :=
-        if s.dead then (s, none) else
+      -- result: (session, rejection, inconclusive).  REJECTED only if every world that was ever consistent with the
+      -- observations has been carried along (nothing dropped by the beam bound or by scheduler fuel) and none of their
+      -- ways to come to rest agrees with the digest; if worlds were dropped the explaining one may be among them.
+      let agentStep (ag : String) (d : Dig) (s : Sess) : Sess × Option String × Option String :=
+        if s.dead then (s, none, none) else
         let ws := s.ws ag
         let results := ws.flatMap fun r => r.opStep ag op args evs d
-        let good := results.filter fun r => (r.compare d).isNone
+        let nGaveUp := (results.filter (·.gaveUp)).length
+        let settled := results.filter fun r => !r.gaveUp
+        let good := settled.filter fun r => (r.compare d).isNone
+        let lossy := s.lossy.orElse fun _ =>
+          if nGaveUp > 0 then some s!"{ag}: greedy scheduler ran out of fuel in {nGaveUp} of {results.length} worlds at op {op}" else none
         if good.isEmpty then
-          let why := match results.head? with
-            | some r => (r.compare d).getD "no world"
-            | none => "no world"
-          (s.setWs ag (results.take 1), some (ag ++ ": " ++ why))
-        else (s.setWs ag ((dedupe good).take 24), none)
-      let (s4, ra) := agentStep "A" digA s1
-      let (s5, rb) := agentStep "B" digB s4
+          match lossy with
+          | some why => ({ s with lossy := lossy }, none, some ("no world left after worlds were dropped unrefuted — " ++ why))
+          | none =>
+            let why := match results.head? with
+              | some r => (r.compare d).getD "no world"
+              | none => "no world"
+            (s.setWs ag (results.take 1), some (ag ++ ": " ++ why), none)
+        else
+          let dd := dedupe good
+          let lossy := lossy.orElse fun _ =>
+            if dd.length > beam then some s!"{ag}: beam overflow ({dd.length} distinct worlds > {beam}) at op {op}" else none
+          ({ s.setWs ag (dd.take beam) with lossy := lossy }, none, none)
+      let (s4, ra, ia) := agentStep "A" digA s1
+      let (s5, rb, ib) := if ra.isSome || ia.isSome then (s4, none, none) else agentStep "B" digB s4
       let rej := if s.dead then none else ra.orElse fun _ => rb
+      let inc := if s.dead || rej.isSome then none else ia.orElse fun _ => ib
       let model := match rej with
         | some why => "rejected:" ++ why
         | none => impl
-      let s6 := if rej.isSome || s.dead then { s5 with dead := true } else s5
+      -- after a rejection or an inconclusive line the model replay of the session stops (no world to go on with);
+      -- the spec monitor keeps judging the session
+      let s6 := if rej.isSome || inc.isSome || s.dead then { s5 with dead := true } else s5
       -- violations that only concern the result of ONE call leave the monitor state intact: keep monitoring
       let soft := match viol with
         | some w => w.startsWith "(U) blocked write" || w.startsWith "(L) await" || w.startsWith "(L) selected"
         | none => false
       let s6 := if (viol.isSome && !soft) || s.monDead then { s6 with monDead := true } else s6
       let s7 := if op == "end" then ({} : Sess) else s6
-      (s7, { model := model, monitor := viol, prop := "C08" })
+      (s7, { model := model, monitor := viol, prop := "C08", inconclusive := inc })
   | [] => (s, Driver.bad "close: empty op")
 
 -- @component close
